@@ -190,6 +190,8 @@ class DetectVarNames( ast.NodeVisitor ):
           raise TypeError( f"Having slice in the middle such as s.x[1][1:2][1][2] "
                            f"doesn't make sense at line {input_node.lineno} of "
                            f"update block {self.upblk.__name__} in class {self.obj.__class__}." )
+        else: # s.x[ s.sel[0:2] ][ s.a + 1 ]: the index expression has reads of its own
+          self.visit( v )
 
         num.append(n)
 
